@@ -39,13 +39,43 @@ def drive(run, name, args, prop, release=False):
     return validate(run, name, evs, prop)
 
 
+def cover_stage(run, prop, stable, stride, seed):
+    """spec -> code: TLC prints one shortest history per abstract state of the cover model; the harness
+    replays each on the real container and forks every call of the alphabet from it; the traces go back
+    through trace validation."""
+    mod = "StableCover" if stable else "GraphCover"
+    r = tlc("graph/" + mod, mod + ".cfg", workers=8, timeout=900, tag="cover")
+    run.add_mc("%s (state cover, MaxIx=3)" % mod, r)
+    scripts = []
+    for line in r.printed("COVER"):
+        p = parse_printed_json(line, "COVER")
+        if p:
+            scripts.append(p[1])
+    sp = os.path.join(OUT, "traces", "%s-cover-scripts.ndjson" % prop)
+    write_ndjson(sp, scripts)
+    tp = os.path.join(OUT, "traces", "%s-cover.ndjson" % prop)
+    evs = vh_trace(["mg-cover", "--in", sp, "--stride", stride, "--offset", seed % stride, "--seed", seed], tp, timeout=900)
+    os.remove(sp)
+    run.extra["cover_states"] = len(scripts)
+    run.extra["cover_states_replayed"] = len([e for e in evs if e.get("op") == "save"])
+    run.extra["cover_forked_calls"] = len([e for e in evs if e.get("op") == "restore"])
+    if scripts:
+        run.sample({"cover_history": scripts[len(scripts) // 2]})
+    return validate(run, "TLC state cover + fan-out (stride %d)" % stride, evs, prop, chunk=6000, parallel=12)
+
+
 def run_common(prop, stable, tier, seed):
     run = Run(prop, tier, seed)
     build_harness()
     thorough = tier == "thorough"
     spec, cfg = ("graph/StableAbs", "MCStableAbs.cfg") if stable else ("graph/GraphAbs", "MCGraphAbs.cfg")
-    run.add_mc("%s MaxIx=3 W={1}" % spec.split("/")[1], tlc(spec, cfg, workers=10, timeout=1800))
+    if stable and not thorough:
+        # the full MaxIx=3 model (150 k states, 55 M transitions) takes over a minute: thorough tier only
+        run.add_mc("StableAbs MaxIx=2 W={1}", tlc(spec, "MCStableAbsQuick.cfg", workers=10, timeout=600))
+    else:
+        run.add_mc("%s MaxIx=3 W={1}" % spec.split("/")[1], tlc(spec, cfg, workers=10, timeout=1800))
     st = ["--stable"] if stable else []
+    cover_stage(run, prop, stable, (4 if stable else 2) if thorough else (40 if stable else 12), seed)
     drive(run, "random histories", ["mg-random", "--seed", seed, "--segments", 210 if thorough else 56, "--len", 120 if thorough else 70] + st, prop)
     drive(run, "vacancy-stress scenarios (tiny index types)", ["mg-scenarios", "--seed", seed, "--segments", 600 if thorough else 150] + st, prop)
     drive(run, "u8 index limit", ["mg-u8limit", "--seed", seed] + st, prop)
